@@ -14,7 +14,7 @@ func init() {
 		ID:    "C05",
 		Level: "exploration",
 		Rule: "scenario(i) as in C01 with random application header/trailer sets (mixed-case tokens outside the reserved namespaces, 1..3 values, -bin keys padded/unpadded, " +
-			"keys used as both header and trailer, Trailer-declared (names spelled as set, lower case or upper case) and http.TrailerPrefix styles) on success and error outcomes; oracle = per-key ordered value equality " +
+			"keys used as both header and trailer, gRPC backends that send grpc-message / grpc-status-details-bin next to grpc-status 0, Trailer-declared (names spelled as set, lower case or upper case) and http.TrailerPrefix styles) on success and error outcomes; oracle = per-key ordered value equality " +
 			"client->backend and backend->client, trailers in the position the client's protocol defines and nowhere else (no left-over Trailer- header), no protocol status key among application metadata. " +
 			"non-trivial = at least one trailer and the protocols differ; distinct by (cell, outcome kind, header/trailer counts, declaration style)",
 		Assume: []string{"header names compared case-insensitively, values exactly", "control-header namespaces: grpc-*, connect-*, trailer-*, content-*, accept-encoding, te, trailer"},
